@@ -128,6 +128,14 @@ def stepM (st : St) (toks : List String) : St × List String :=
       let x := { old with v := addValueCounterHost d old.v v c h }
       (setM st r x, [s!"drew={b01 (needsDraw old.v c h)}", showV x.v])
     | _, _, _, _, _ => bad st
+  | ["uniq", r, d, c, h, vs] => match reg? r 16, d.toNat?, c.toInt?, h.toNat?, parseIntList? vs with
+    | some r, some d, some c, some h, some vs =>
+      let old := st.m[r]!
+      let x := applyUnique P d old vs c h
+      let b := if vs.isEmpty then st.mb[r]! else
+        vs.foldl (fun t v => UTable.insertHash RZ P (UTable.ensure P t) (uintHash32 (hashKey v)).toNat) st.mb[r]!
+      (setB (setM st r x) r b, [s!"drew={b01 (!vs.isEmpty && needsDraw old.v c h)}", showV x.v, showU x.u, showB b])
+    | _, _, _, _, _ => bad st
   | ["ins", r, v] => match reg? r 16, v.toNat? with
     | some r, some v =>
       if v ≥ 18446744073709551616 then bad st else
